@@ -137,9 +137,23 @@ def run(F, res, tier):
                 for fld in v["fields"]:
                     if re.search(r"\b(RefCell|Cell|Mutex|RwLock|OnceCell|OnceLock|Atomic\w+|Lazy)<", fld["ty"]) or re.search(r"Atomic(Bool|U\d+|I\d+|Usize)", fld["ty"]):
                         cells.append("%s.%s" % (p, fld["name"]))
-    allowed_cells = {"ide::def::semantics::Semantics.cache", "syntax::parser::Parser.fuel"}
-    res.ob("H2", "interior-mutability", "the only interior-mutable fields in ide/syntax are Semantics.cache (per request) and Parser.fuel (per parse)",
-           set(cells) <= allowed_cells, where="crates/ide, crates/syntax", how=str(sorted(cells)))
+    allowed_cells = {"ide::def::semantics::Semantics.cache"}
+    # counters of the parser (progress fuel, nesting level): they belong to a Parser value, which is built in parse_module, never
+    # stored in another type and gone when parse_module returns - state of one parse, not of the analysis
+    from lib import effects as _EF
+    per_parse = set()
+    for c in cells:
+        adt = c.rsplit(".", 1)[0]
+        if not adt.startswith("syntax::parser::"):
+            continue
+        built_in = {f_.path for f_, b_, s_ in _EF.constructions(F, adt, None, "")}
+        held_by = [p2 for p2, a2 in F.adts.items() if p2 != adt and not p2.startswith("syntax::parser::") and
+                   any(adt in fld["ty"] for v2 in a2["variants"] for fld in v2["fields"])]
+        if built_in and all(x.startswith("syntax::parser::") for x in built_in) and not held_by:
+            per_parse.add(c)
+    res.ob("H2", "interior-mutability", "the only interior-mutable fields in ide/syntax are Semantics.cache (per request) and the counters of a Parser "
+           "(built and dropped inside parse_module)", set(cells) <= allowed_cells | per_parse, where="crates/ide, crates/syntax",
+           how="%s; per-parse: %s" % (sorted(cells), sorted(per_parse)))
     res.ob("H2", "semantics-not-stored", "Semantics (per-request cache) is not reachable from the fields of RootDatabase/AnalysisHost/Analysis", not holders,
            where="crates/ide/src/def/semantics.rs", how=str(holders) if holders else "no holder")
     # ---- H3
